@@ -2,7 +2,6 @@
 // Everything in this module is ASSUMED (trusted base), see DESIGN.md section 4.
 pub mod verif_std {
 use super::*;
-use vstd::std_specs::iter::IteratorSpec;
 
 // ---- integers <-> little-endian bytes (textbook definitions)
 /// little-endian integer value of a byte string
@@ -56,9 +55,50 @@ pub open spec fn fold_chain<'a, T: 'a, B, F: FnMut(B, &'a T) -> B>(f: F, s: Seq<
 pub assume_specification<'a, T, B, F>[<core::slice::Iter<'a, T> as Iterator>::fold](it: core::slice::Iter<'a, T>, init: B, f: F) -> (r: B)
     where F: FnMut(B, &'a T) -> B
     requires
-        forall|b: B, i: int| 0 <= i < it.remaining().len() ==> #[trigger] call_requires(f, (b, it.remaining()[i])),
+        forall|b: B, i: int| 0 <= i < vstd::std_specs::iter::IteratorSpec::remaining(&it).len() ==> #[trigger] call_requires(f, (b, vstd::std_specs::iter::IteratorSpec::remaining(&it)[i])),
     ensures
-        exists|accs: Seq<B>| accs[0] == init && #[trigger] fold_chain(f, it.remaining(), accs) && r == accs.last();
+        exists|accs: Seq<B>| accs[0] == init && #[trigger] fold_chain(f, vstd::std_specs::iter::IteratorSpec::remaining(&it), accs) && r == accs.last();
+
+/// T-std: `Iterator::fold` on `Map<I, F>` (Map overrides fold): left fold of `g` over the values the map will yield
+/// (vstd's prophetic `remaining()`); since fold returns, the iterator was exhausted (`will_return_none`).
+pub open spec fn fold_chain_v<B, Acc, G: FnMut(Acc, B) -> Acc>(g: G, s: Seq<B>, accs: Seq<Acc>) -> bool {
+    accs.len() == s.len() + 1
+    && forall|i: int| 0 <= i < s.len() ==> call_ensures(g, (#[trigger] accs[i], s[i]), accs[i + 1])
+}
+pub assume_specification<B, I: Iterator, F: FnMut(I::Item) -> B, Acc, G: FnMut(Acc, B) -> Acc>[<core::iter::Map<I, F> as Iterator>::fold](it: core::iter::Map<I, F>, init: Acc, g: G) -> (r: Acc)
+    requires
+        forall|a: Acc, i: int| 0 <= i < vstd::std_specs::iter::IteratorSpec::remaining(&it).len()
+            ==> #[trigger] call_requires(g, (a, vstd::std_specs::iter::IteratorSpec::remaining(&it)[i])),
+    ensures
+        vstd::std_specs::iter::IteratorSpec::will_return_none(&it),
+        exists|accs: Seq<Acc>| accs[0] == init && #[trigger] fold_chain_v(g, vstd::std_specs::iter::IteratorSpec::remaining(&it), accs) && r == accs.last();
+
+/// T-std: `[V].concat()` (slice concatenation; the `Concat` trait is unstable, hence the feature gates of the unit):
+/// generic postcondition `concat_post`, specialised for slices of byte vectors = concatenation in order
+#[verifier::external_trait_specification]
+pub trait ExConcat<Item: ?Sized> {
+    type ExternalTraitSpecificationFor: std::slice::Concat<Item>;
+    type Output;
+}
+pub open spec fn flat(s: Seq<Vec<u8>>) -> Seq<u8>
+    decreases s.len()
+{
+    if s.len() == 0 { Seq::empty() } else { flat(s.drop_last()) + s.last()@ }
+}
+pub uninterp spec fn concat_post<T, Item: ?Sized>(s: &[T], r: <[T] as std::slice::Concat<Item>>::Output) -> bool where [T]: std::slice::Concat<Item>;
+pub assume_specification<T, Item>[<[T]>::concat](s: &[T]) -> (r: <[T] as std::slice::Concat<Item>>::Output)
+    where Item: core::marker::MetaSized + ?Sized, [T]: std::slice::Concat<Item>
+    ensures concat_post::<T, Item>(s, r);
+pub broadcast axiom fn ax_concat_vec_u8(s: &[Vec<u8>], r: Vec<u8>)
+    ensures #[trigger] concat_post::<Vec<u8>, u8>(s, r) ==> r@ == flat(s@);
+pub broadcast proof fn lemma_flat2(s: Seq<Vec<u8>>)
+    requires s.len() == 2
+    ensures #[trigger] flat(s) == s[0]@ + s[1]@
+{
+    reveal_with_fuel(flat, 3);
+    assert(s.drop_last().drop_last().len() == 0);
+    assert(flat(s) =~= s[0]@ + s[1]@);
+}
 
 /// T-std: `Vec<u8>` as an ordered-collection key.  std's `Ord for Vec<u8>` is the lexicographic order on the
 /// contents, so two keys compare Equal exactly when their contents are equal; in the specification language a
